@@ -55,7 +55,11 @@ def unknown_pairs(rng, scope):
     out = []
     for _ in range(rng.choice([0, 0, 1, 2, 3])):
         r = rng.random()
-        if r < 0.3:
+        if r < 0.12:
+            # keys that only share their first byte with a known single-byte key type
+            t = rng.choice({"in": [0x0e, 0x0f, 0x10], "out": [0x03, 0x04], "global": [0x02, 0x03, 0x04, 0x05, 0xfb]}[scope])
+            k = bytes([t]) + rbytes(rng, rng.choice([1, 1, 2]))
+        elif r < 0.3:
             k = b"\xfc" + cs(4) + b"test" + bytes([rng.randrange(4)]) + rbytes(rng, rng.randrange(0, 4))
         elif r < 0.6:
             t = rng.choice({"in": [0x09, 0x0a, 0x0b, 0x0c, 0x0d, 0x11, 0x12, 0x13, 0x19, 0x20, 0xf0],
